@@ -677,6 +677,9 @@ func main() {
 	jobs := *flagJobs
 	if jobs <= 0 {
 		jobs = 16
+		if v, err := strconv.Atoi(os.Getenv("VERIF_JOBS")); err == nil && v > 0 {
+			jobs = v
+		}
 	}
 	results, solverStats, tot := runAll(l, hs, jobs)
 	solverWall := tot.wall
